@@ -1,10 +1,12 @@
 #include "../engine.h"
 #define P(x) Prop *make_##x();
-P(c01) P(c02) P(c05) P(c12)
+P(c01) P(c02) P(c03) P(c04) P(c05) P(c12)
 #undef P
 Prop *make_prop(const std::string &id) {
 	if (id == "C01") return make_c01();
 	if (id == "C02") return make_c02();
+	if (id == "C03") return make_c03();
+	if (id == "C04") return make_c04();
 	if (id == "C05") return make_c05();
 	if (id == "C12") return make_c12();
 	return nullptr;
